@@ -47,6 +47,8 @@ struct job {
 	struct iv_work_pool	*pool;
 	struct iv_work_item	*item;
 	int			fired;
+	int			npend;		/* far-future timers still registered at deinit / thread exit */
+	struct iv_timer		*pend;
 };
 
 static int count_fds(void)
@@ -79,6 +81,19 @@ static int count_threads(void)
 	return n;
 }
 
+/* with timers left pending the loop never becomes empty: leave iv_main through iv_quit once everything else has fired */
+static void maybe_quit(struct job *j)
+{
+	if (j->npend && j->fired == 5)
+		iv_quit();
+}
+
+static void never(void *cookie)
+{
+	(void)cookie;
+	abort();
+}
+
 static void got_fd(void *cookie)
 {
 	struct job *j = cookie;
@@ -88,6 +103,7 @@ static void got_fd(void *cookie)
 		;
 	iv_fd_unregister(j->fd);
 	j->fired++;
+	maybe_quit(j);
 }
 
 static void got_timer(void *cookie)
@@ -95,6 +111,7 @@ static void got_timer(void *cookie)
 	struct job *j = cookie;
 
 	j->fired++;
+	maybe_quit(j);
 }
 
 static void got_task(void *cookie)
@@ -104,6 +121,7 @@ static void got_task(void *cookie)
 	j->fired++;
 	iv_event_post(j->ev);
 	iv_event_raw_post(j->raw);
+	maybe_quit(j);
 }
 
 static void got_ev(void *cookie)
@@ -112,6 +130,7 @@ static void got_ev(void *cookie)
 
 	iv_event_unregister(j->ev);
 	j->fired++;
+	maybe_quit(j);
 }
 
 static void got_raw(void *cookie)
@@ -120,6 +139,7 @@ static void got_raw(void *cookie)
 
 	iv_event_raw_unregister(j->raw);
 	j->fired++;
+	maybe_quit(j);
 }
 
 static void work_fn(void *cookie)
@@ -206,6 +226,19 @@ static void use_loop(struct job *j)
 	if (j->use_child)
 		iv_thread_create("churn-child", child_fn, NULL);
 
+	if (j->npend) {
+		int i;
+
+		j->pend = calloc(j->npend, sizeof(*j->pend));
+		for (i = 0; i < j->npend; i++) {
+			IV_TIMER_INIT(&j->pend[i]);
+			j->pend[i].handler = never;
+			j->pend[i].expires = iv_now;
+			j->pend[i].expires.tv_sec += 3600 + i;
+			iv_timer_register(&j->pend[i]);
+		}
+	}
+
 	iv_main();
 
 	if (j->fired != 5 + (j->use_pool ? 1 : 0)) {
@@ -256,11 +289,20 @@ static void batch(unsigned *seed, int n)
 			j[k].ending = rand_r(seed) % 3;
 			j[k].use_pool = rand_r(seed) % 3 == 0;
 			j[k].use_child = rand_r(seed) % 3 == 0;
+			if (rand_r(seed) % 3 == 0) {
+				/* leave 130 .. 1000 far-future timers registered (radix tree of two or three levels) when the
+				   loop is deinitialised or the thread exits; the loop is left through iv_quit */
+				j[k].npend = 130 + rand_r(seed) % 871;
+				j[k].use_pool = 0;
+				j[k].use_child = 0;
+			}
 			if (pthread_create(&t[k], NULL, thread_main, &j[k]))
 				abort();
 		}
-		for (k = 0; k < m; k++)
+		for (k = 0; k < m; k++) {
 			pthread_join(t[k], NULL);
+			free(j[k].pend);
+		}
 		done += m;
 		/* init/use/deinit cycle in the main thread as well */
 		{
@@ -268,9 +310,14 @@ static void batch(unsigned *seed, int n)
 
 			memset(&mj, 0, sizeof(mj));
 			mj.use_pool = rand_r(seed) % 2;
+			if (rand_r(seed) % 3 == 0) {
+				mj.npend = 130 + rand_r(seed) % 871;
+				mj.use_pool = 0;
+			}
 			iv_init();
 			use_loop(&mj);
 			iv_deinit();
+			free(mj.pend);
 		}
 	}
 }
